@@ -326,5 +326,17 @@ func Build(scratch string, race bool) (*Result, error) {
 // concrete *net.UDPConn field type becomes the interface. Each pattern must
 // match exactly as often as stated, else the build fails (exit 2).
 func rewriteR2(src []byte) ([]byte, error) {
+	reps := [][2]string{
+		{"pConn *net.UDPConn", "pConn net.PacketConn"},
+		{"innerConn, err := lc.ListenConfig.ListenPacket(context.Background(), network, laddrStr)", "innerConn, err := verifListenPacket(lc, network, laddrStr)"},
+		{"conn, ok := innerConn.(*net.UDPConn)", "conn, ok := innerConn.(net.PacketConn)"},
+	}
+	for _, r := range reps {
+		if c := bytes.Count(src, []byte(r[0])); c != 1 {
+			return nil, fmt.Errorf("R2: pattern %q occurs %d times in internal/net/udp/packet_conn.go (want 1)", r[0], c)
+		}
+		src = bytes.Replace(src, []byte(r[0]), []byte(r[1]), 1)
+	}
+
 	return src, nil
 }
